@@ -1,14 +1,14 @@
 """C09 - commitments are the exact Pedersen map and open only to what was committed."""
 from core import *
 
-RULE = ("for G in {G1,G2}, N in {1,2,3,5,8,13}: parameters with known discrete logs (distinct / small / duplicate / "
+RULE = ("for G in {G1,G2}, N in {1,2,3,5,8,13,17,34}: parameters with known discrete logs (distinct / small / duplicate / "
         "identity generator, through from_generators), generated parameters and key-derived parameters; messages and "
         "blinding factors over the edge set {0,1,2,q-1,q-2,2^63-1,2^63,2^64-1,CLOSE,(q-1)/2} and random; every "
         "single-coordinate perturbation, wrong blinding factor, wrong commitment; additivity. A case is non-trivial "
         "when its message has a non-zero coordinate or its opening was perturbed; distinct = distinct digest of the inputs.")
 TRUSTED = ["theorems C09_* are over an arbitrary field; correspondence ops: ped_commit, ped_open, ped_from, ped_new, pk_ped"]
 ASSUMPTIONS = ["bls12_381 group arithmetic and point codecs are correct (the comparator multiplies generators with it)"]
-NS = [1, 2, 3, 5, 8, 13]
+NS = [1, 2, 3, 5, 8, 13, 17, 34]
 
 
 def params_bytes(h, grp, n, hdl, gdls, pts):
@@ -40,15 +40,36 @@ def run(run, h):
             for rd in range(rounds):
                 for mode in (modes if rd == 0 else [rng.choice(modes)]):
                     known_case(run, h, pts, batch, rng, grp, n, mode)
+            for special in ("all_zero", "all_one", "all_minus_one", "solved_identity", "solved_h", "message_part_cancels"):
+                known_case(run, h, pts, batch, rng, grp, n, "rand", special)
             generated_case(run, h, pts, rng, grp, n)
             key_params_case(run, h, rng, grp, n)
     batch.flush()
 
 
-def known_case(run, h, pts, batch, rng, grp, n, mode):
+def known_case(run, h, pts, batch, rng, grp, n, mode, special=None):
     hdl, gdls = gen_dls(rng, n, mode)
     ms = [rand_scalar(rng, 0.5) for _ in range(n)]
     bf = rand_scalar(rng, 0.4)
+    # degenerate commitments (the quantifier's entries 0 / 1 / q-1 in every position at once, and - possible only because
+    # the generators' discrete logs are known - openings solved so that the commitment is the identity element or h itself)
+    if special == "all_zero":
+        ms, bf = [0] * n, 0
+    elif special == "all_one":
+        ms, bf = [1] * n, 1
+    elif special == "all_minus_one":
+        ms, bf = [Q - 1] * n, Q - 1
+    elif special == "solved_identity":
+        bf = (-sum(g * m for g, m in zip(gdls, ms)) * pow(hdl, -1, Q)) % Q
+    elif special == "solved_h":
+        bf = (1 - sum(g * m for g, m in zip(gdls, ms)) * pow(hdl, -1, Q)) % Q
+    elif special == "message_part_cancels":
+        j = rng.randrange(n)
+        ms[j] = 0
+        ms[j] = (-sum(g * m for g, m in zip(gdls, ms)) * pow(gdls[j], -1, Q)) % Q
+        bf = rng.choice([0, bf])
+    if special:
+        mode = mode + "/" + special
     h.begin()
     params = params_bytes(h, grp, n, hdl, gdls, pts)
     com_ser, com_el = h.call("ped_commit", grp, n, params, scs(ms), sc(bf))
@@ -85,7 +106,7 @@ def known_case(run, h, pts, batch, rng, grp, n, mode):
         batch.add("r_open %s %s %s %s %s" % (zlit(hdl), zlist(gdls), zlit(c_dl), zlit(bf2), zlist(ms2)), cmp_open)
 
     opening("original", com_el, cdl, bf, ms, must=True)
-    coords = range(n) if (n <= 5 or run.tier == "thorough") else sorted(rng.sample(range(n), 4))
+    coords = pick_coords(rng, n, 4, run.tier == "thorough")
     for j in coords:
         delta = rng.choice([1, Q - 1, rng.randrange(1, Q)])
         ms2 = list(ms)
